@@ -175,7 +175,7 @@ def handle1 : List String → String
     | some b, some sh => match deserializeSpendJournalEntry C b sh with
       | .ok l => s!"ok {showTxos l}"
       | .err => "err"
-      | .assertErr => "assert"
+      | .assertErr => "err"   -- which error type is returned is not property-level
       | .panic => "panic"
     | _, _ => "bad-op"
   | ["best", hash, height, total, ws] => match hexToList? hash, height.toNat?, total.toNat?, hexToNat? ws with
